@@ -24,19 +24,116 @@ from kmip.core import enums, objects  # noqa: E402
 from kmip.core.messages.payloads import get_attributes, get_attribute_list  # noqa: E402
 
 
+# The standard attribute names of KMIP 2.0 by tag identifier (section 4 / the tag table of the specification), pinned
+# against the unchanged tree.  AttrRule (SchemaBase.tla) covers the 33 attributes whose VALUES the library implements; an
+# attribute REFERENCE only needs the name, so the reference fields range over all of these.
+STD_ATTRIBUTE_NAMES = {
+    'ACTIVATION_DATE': 'Activation Date',
+    'ALTERNATIVE_NAME': 'Alternative Name',
+    'ALWAYS_SENSITIVE': 'Always Sensitive',
+    'APPLICATION_SPECIFIC_INFORMATION': 'Application Specific Information',
+    'ARCHIVE_DATE': 'Archive Date',
+    'ATTRIBUTE': 'Attribute',
+    'CERTIFICATE_IDENTIFIER': 'Certificate Identifier',
+    'CERTIFICATE_ISSUER': 'Certificate Issuer',
+    'CERTIFICATE_ISSUER_C': 'Certificate Issuer C',
+    'CERTIFICATE_ISSUER_CN': 'Certificate Issuer CN',
+    'CERTIFICATE_ISSUER_DC': 'Certificate Issuer DC',
+    'CERTIFICATE_ISSUER_DN_QUALIFIER': 'Certificate Issuer DN Qualifier',
+    'CERTIFICATE_ISSUER_EMAIL': 'Certificate Issuer Email',
+    'CERTIFICATE_ISSUER_L': 'Certificate Issuer L',
+    'CERTIFICATE_ISSUER_O': 'Certificate Issuer O',
+    'CERTIFICATE_ISSUER_OU': 'Certificate Issuer OU',
+    'CERTIFICATE_ISSUER_SERIAL_NUMBER': 'Certificate Issuer Serial Number',
+    'CERTIFICATE_ISSUER_ST': 'Certificate Issuer ST',
+    'CERTIFICATE_ISSUER_TITLE': 'Certificate Issuer Title',
+    'CERTIFICATE_ISSUER_UID': 'Certificate Issuer UID',
+    'CERTIFICATE_LENGTH': 'Certificate Length',
+    'CERTIFICATE_SUBJECT': 'Certificate Subject',
+    'CERTIFICATE_SUBJECT_C': 'Certificate Subject C',
+    'CERTIFICATE_SUBJECT_CN': 'Certificate Subject CN',
+    'CERTIFICATE_SUBJECT_DC': 'Certificate Subject DC',
+    'CERTIFICATE_SUBJECT_DN_QUALIFIER': 'Certificate Subject DN Qualifier',
+    'CERTIFICATE_SUBJECT_EMAIL': 'Certificate Subject Email',
+    'CERTIFICATE_SUBJECT_L': 'Certificate Subject L',
+    'CERTIFICATE_SUBJECT_O': 'Certificate Subject O',
+    'CERTIFICATE_SUBJECT_OU': 'Certificate Subject OU',
+    'CERTIFICATE_SUBJECT_SERIAL_NUMBER': 'Certificate Subject Serial Number',
+    'CERTIFICATE_SUBJECT_ST': 'Certificate Subject ST',
+    'CERTIFICATE_SUBJECT_TITLE': 'Certificate Subject Title',
+    'CERTIFICATE_SUBJECT_UID': 'Certificate Subject UID',
+    'CERTIFICATE_TYPE': 'Certificate Type',
+    'COMMENT': 'Comment',
+    'COMPROMISE_DATE': 'Compromise Date',
+    'COMPROMISE_OCCURRENCE_DATE': 'Compromise Occurrence Date',
+    'CONTACT_INFORMATION': 'Contact Information',
+    'CRYPTOGRAPHIC_ALGORITHM': 'Cryptographic Algorithm',
+    'CRYPTOGRAPHIC_DOMAIN_PARAMETERS': 'Cryptographic Domain Parameters',
+    'CRYPTOGRAPHIC_LENGTH': 'Cryptographic Length',
+    'CRYPTOGRAPHIC_PARAMETERS': 'Cryptographic Parameters',
+    'CRYPTOGRAPHIC_USAGE_MASK': 'Cryptographic Usage Mask',
+    'CUSTOM_ATTRIBUTE': 'Custom Attribute',
+    'DEACTIVATION_DATE': 'Deactivation Date',
+    'DESCRIPTION': 'Description',
+    'DESTROY_DATE': 'Destroy Date',
+    'DIGEST': 'Digest',
+    'DIGITAL_SIGNATURE_ALGORITHM': 'Digital Signature Algorithm',
+    'EXTRACTABLE': 'Extractable',
+    'FRESH': 'Fresh',
+    'INITIAL_DATE': 'Initial Date',
+    'KEY_FORMAT_TYPE': 'Key Format Type',
+    'KEY_VALUE_LOCATION': 'Key Value Location',
+    'KEY_VALUE_PRESENT': 'Key Value Present',
+    'LAST_CHANGE_DATE': 'Last Change Date',
+    'LEASE_TIME': 'Lease Time',
+    'LINK': 'Link',
+    'NAME': 'Name',
+    'NEVER_EXTRACTABLE': 'Never Extractable',
+    'NIST_KEY_TYPE': 'NIST Key Type',
+    'OBJECT_GROUP': 'Object Group',
+    'OBJECT_TYPE': 'Object Type',
+    'OPAQUE_DATA_TYPE': 'Opaque Data Type',
+    'OPERATION_POLICY_NAME': 'Operation Policy Name',
+    'ORIGINAL_CREATION_DATE': 'Original Creation Date',
+    'PKCS12_FRIENDLY_NAME': 'PKCS#12 Friendly Name',
+    'PROCESS_START_DATE': 'Process Start Date',
+    'PROTECT_STOP_DATE': 'Protect Stop Date',
+    'PROTECTION_LEVEL': 'Protection Level',
+    'PROTECTION_PERIOD': 'Protection Period',
+    'PROTECTION_STORAGE_MASK': 'Protection Storage Mask',
+    'QUANTUM_SAFE': 'Quantum Safe',
+    'RANDOM_NUMBER_GENERATOR': 'Random Number Generator',
+    'REVOCATION_REASON': 'Revocation Reason',
+    'SENSITIVE': 'Sensitive',
+    'SHORT_UNIQUE_IDENTIFIER': 'Short Unique Identifier',
+    'STATE': 'State',
+    'UNIQUE_IDENTIFIER': 'Unique Identifier',
+    'USAGE_LIMITS': 'Usage Limits',
+    'X_509_CERTIFICATE_IDENTIFIER': 'X.509 Certificate Identifier',
+    'X_509_CERTIFICATE_ISSUER': 'X.509 Certificate Issuer',
+    'X_509_CERTIFICATE_SUBJECT': 'X.509 Certificate Subject',
+}
+_STD_BY_NAME = {v: k for k, v in STD_ATTRIBUTE_NAMES.items()}
+
+
 def _name_of_tag(tag):
-    """Attribute name of a Tags member per AttrRule."""
-    n = B.attr_name_by_tag(tag)
+    """Attribute name of a Tags member per AttrRule, else per the standard name table."""
+    n = B.attr_name_by_tag(tag) or STD_ATTRIBUTE_NAMES.get(tag.name)
     if n is None:
-        raise ValueError("no attribute with tag %s in AttrRule" % tag.name)
+        raise ValueError("no attribute with tag %s" % tag.name)
     return n
 
 
 def _tags_of_names(names):
-    """Tags members of attribute names per AttrRule; names AttrRule does not know have no 2.0 enumeration form and
-    are left out of the view (a value that had them then fails the round trip comparison, as it should)."""
+    """Tags members of attribute names; names without a standard tag have no 2.0 enumeration form and are left out of
+    the view (a value that had them then fails the round trip comparison, as it should)."""
     rules = B.S()["attr"]
-    out = [enums.Tags[rules[n]["t"]] for n in (names or []) if n in rules]
+    out = []
+    for n in (names or []):
+        if n in rules:
+            out.append(enums.Tags[rules[n]["t"]])
+        elif n in _STD_BY_NAME:
+            out.append(enums.Tags[_STD_BY_NAME[n]])
     return out or None
 
 
@@ -70,7 +167,10 @@ def _name_pool(ver):
 def _ref_pool(ver):
     """2.0 attribute references (enumeration form): the tags of the standard attributes of the version."""
     tags = B.S()["tag"]
-    return [G.num(tags[B.S()["attr"][n]["t"]]) for n in _std_names(ver)]
+    have = set(B.S()["attr"][n]["t"] for n in _std_names(ver))
+    rest = [t for t in sorted(STD_ATTRIBUTE_NAMES) if t not in have and t in tags
+            and t not in set(r["t"] for r in B.S()["attr"].values())]       # (names AttrRule gates by version stay gated)
+    return [G.num(tags[B.S()["attr"][n]["t"]]) for n in _std_names(ver)] + [G.num(tags[t]) for t in rest]
 
 
 def _distinct(v, field):
